@@ -46,7 +46,10 @@ What is abstracted:
   history and the `reduce_lr_*` parameters (C15's subject); here it is arbitrary.
 * a history row is identified by its epoch: its other columns are functions of the metric
   history (that is C15's subject); the validation metric that decides "best" is `vals[e-1]`
-  (`none` = `inf`/`nan`, never best).
+  (`none` = `inf`/`nan`, never best). `vals` is the list of values `get_best_epoch` COMPARES:
+  metrics are integers (any order-preserving image of the floats), and which integers a given
+  controller compares — the raw metric or what the history file recorded of it — is the last
+  section (`Rounding`, `memVals`, `fileVals`).
 * the metric that decides "best" is the validation metric, or the training metric when
   `update_for_epoch(..., best_is_train=True)`: `deciding` picks the column, everything else is
   parametric in the chosen column `vals`.
@@ -428,5 +431,60 @@ def faulty (Q : Quirks) (P : Params) (vals : List (Option Int)) (tr : Train) (d 
     List (Nat × Nat × Bool) → Disk
   | [] => runToEnd Q P vals tr d
   | (j, i, torn) :: rest => faulty Q P vals tr (crashSession Q P vals tr d j i torn) rest
+
+/-! ## metrics in memory and as recorded in the history file
+
+`update_for_epoch` is handed a metric `x` (a float); `save_info_to_hist` writes `"{:.4e}".format(x)`; a
+controller started later caches `float(text)` = `R.file x`. A running controller caches the RAW `x` of
+the epochs it added itself. `get_best_epoch` compares `float(fmt.format(v))` = `R.mem v` of every cached
+value `v` (in the code `mem` and `file` are the same function, 5 significant digits). So which epoch a
+controller calls "best" depends on WHEN it was started — unless the two roundings are consistent. All
+functions above take the list `vals` of the values that are compared; for a controller started when `k0`
+epochs were recorded that list is `memVals R raw k0`, for one started on the complete history it is
+`recVals R raw`. The "best" of the spec (`Rec`, `ExactLB`) is the best of the history AS RECORDED:
+the first minimum of `fileVals R raw`. -/
+
+structure Rounding where
+  /-- what `update_cache` reads back for a metric that was written as `x` -/
+  file : Int → Int
+  /-- what `get_best_epoch` turns a cached value into before it compares -/
+  mem : Int → Int
+
+def rmap (r : Int → Int) (vals : List (Option Int)) : List (Option Int) := vals.map (Option.map r)
+
+/-- The metric column of the history file: the history AS RECORDED. -/
+def fileVals (R : Rounding) (raw : List (Option Int)) : List (Option Int) := rmap R.file raw
+
+/-- The cache of a controller that was started when `k0` epochs were recorded and added the later
+ones itself (`none` = `inf`, written as `inf`, read back as `inf`). -/
+def cacheVals (R : Rounding) (raw : List (Option Int)) (k0 : Nat) : List (Option Int) :=
+  rmap R.file (raw.take k0) ++ raw.drop k0
+
+/-- What that controller's `get_best_epoch` compares. -/
+def memVals (R : Rounding) (raw : List (Option Int)) (k0 : Nat) : List (Option Int) :=
+  rmap R.mem (cacheVals R raw k0)
+
+/-- What the `get_best_epoch` of a controller started on the recorded history compares. -/
+def recVals (R : Rounding) (raw : List (Option Int)) : List (Option Int) :=
+  rmap R.mem (rmap R.file raw)
+
+/-- Sessions of the real controller: the list of compared values is fixed when the controller is
+constructed (`k0` = the number of epochs it read from the file). -/
+def crashSessionR (Q : Quirks) (P : Params) (R : Rounding) (raw : List (Option Int)) (tr : Train)
+    (d : Disk) (j i : Nat) (torn : Bool := false) : Disk :=
+  match recorded d with
+  | none => d
+  | some k0 => crashSession Q P (memVals R raw k0) tr d j i torn
+
+def runToEndR (Q : Quirks) (P : Params) (R : Rounding) (raw : List (Option Int)) (tr : Train)
+    (d : Disk) : Disk :=
+  match recorded d with
+  | none => d
+  | some k0 => runToEnd Q P (memVals R raw k0) tr d
+
+def faultyR (Q : Quirks) (P : Params) (R : Rounding) (raw : List (Option Int)) (tr : Train) (d : Disk) :
+    List (Nat × Nat × Bool) → Disk
+  | [] => runToEndR Q P R raw tr d
+  | (j, i, torn) :: rest => faultyR Q P R raw tr (crashSessionR Q P R raw tr d j i torn) rest
 
 end PdtVerif.Checkpoint
